@@ -26,7 +26,8 @@ VARIANTS = [("-", "_ˉ̲̄̅−‐‑‒–—―‾¯-"), ("`", "ʼ`"),
             ("~", "˜∼~"), ("^", "ˆ̂^"), ("˙", "̇˙"), ("¨", "̈¨"),
             ("°", "ºₒ⃘∘°"), ("‖", "ǁ‖∥"), ("'", "′'’ʹ"), (".", "⋅.·")]
 VMAP = {c: rep for rep, cs in VARIANTS for c in cs}
-MULTI = {"″": "''", "‴": "'''", "⁗": "''''", "…": "...", "⋯": "...", "∥": "‖"}
+MULTI = {"″": "''", "‴": "'''", "⁗": "''''", "…": "...", "⋯": "...", "∥": "‖",
+         "∶": ":", "∷": "::"}       # a colon between numbers is written as the ratio sign, a double colon as the proportion sign
 LEAVES = {"mi", "mn", "mo", "mtext", "ms", "mglyph"}
 DROPPED = {"mphantom", "annotation", "annotation-xml", "mspace", "malignmark", "maligngroup", "none", "mprescripts"}
 
